@@ -2,15 +2,20 @@
    or alone).  Links the typed layer of Model.v (do_ava, to_one_py, from_local_py, roundtrip_py) to
    the string level the other theorems speak about, proves the typed clauses of the property outside
    the finding classes, and the reflection of their boolean versions.
-   Finding class 4 (C17-F4): do_ava accepts `val or val is False`, so the integer 0 (falsy, not
-   False, not None) raises OtherError — alone or inside a list. *)
+   Finding class 4 (C17-F4, REPAIRED by 33a3a3a1): do_ava accepted `val or val is False`, so the
+   integer 0 and the float 0.0 (falsy, not False, not None) raised OtherError — alone or inside a
+   list.  The model follows the repaired code and no theorem is guarded by class 4 any more; it is
+   still computed (`*_cls_reg_py`, used by Corr.cls) so that a regression is named — the finding being
+   closed, the driver reports such a case as VIOLATION with the failing input.  The old behaviour is
+   Model.do_ava1_v0 / from_local_py_v0 / roundtrip_py_v0 (zero_v0_refuted_holds, zero_now_holds). *)
 From Coq Require Import String List Bool Arith ZArith Lia.
 From Verif Require Import Base.Str C17.Model C17.Spec C17.Proofs C17.Reflect C17.Classes.
 Import ListNotations.
 Open Scope string_scope.
 
 (* ================================================================ class 4 *)
-Definition is_zero (v : pyval) : bool := match v with PInt z => Z.eqb z 0 | _ => false end.
+Definition is_zero (v : pyval) : bool :=
+  match v with PInt z => Z.eqb z 0 | PFloat _ zero => zero | _ => false end.
 Definition has_zero (a : pava) : bool := existsb (fun e => existsb is_zero (given (snd e))) a.
 
 (* the keys of the dictionary (classes 1-3 are computed from the names; 2 also from the strings) *)
@@ -21,23 +26,23 @@ Definition lowered (a : pava) : list (string * list string) :=
 Definition with4 (k : nat) (a : pava) : nat :=
   match k with 0 => if has_zero a then 4 else 0 | _ => k end.
 
-(* the OPEN classes: these guard the theorems *)
-Definition send_cls_py (acs : list conv) (f : string) (a : pava) : nat := with4 (send_cls acs f (lowered a)) a.
-Definition round_cls_py (acs : list conv) (f : string) (a : pava) : nat := with4 (round_cls acs f (lowered a)) a.
-(* the same plus recognition of the repaired classes 3 and 2 (Corr.cls) *)
+(* the OPEN class (1): this guards the theorems *)
+Definition send_cls_py (acs : list conv) (f : string) (a : pava) : nat := send_cls acs f (lowered a).
+Definition round_cls_py (acs : list conv) (f : string) (a : pava) : nat := round_cls acs f (lowered a).
+(* the same plus recognition of the repaired classes 4, 3 and 2 (Corr.cls) *)
+Definition send_cls_reg_py (acs : list conv) (f : string) (a : pava) : nat :=
+  with4 (send_cls acs f (lowered a)) a.
 Definition round_cls_reg_py (acs : list conv) (f : string) (a : pava) : nat :=
   with4 (round_cls_reg acs f (lowered a)) a.
 
-Lemma with4_zero k a : with4 k a = 0 -> k = 0 /\ has_zero a = false.
-Proof. unfold with4. destruct k; [destruct (has_zero a)|]; intros H; try discriminate; auto. Qed.
+(* the regression recognisers only ever ADD the repaired classes *)
+Lemma send_cls_reg_py_open acs f a : send_cls_py acs f a <> 0 -> send_cls_reg_py acs f a = send_cls_py acs f a.
+Proof. unfold send_cls_py, send_cls_reg_py, with4. destruct (send_cls acs f (lowered a)); congruence. Qed.
 
-Lemma round_cls_reg_py_open acs f a :
-  round_cls_py acs f a <> 0 -> round_cls_py acs f a <> 4 -> round_cls_reg_py acs f a = round_cls_py acs f a.
+Lemma round_cls_reg_py_open acs f a : round_cls_py acs f a <> 0 -> round_cls_reg_py acs f a = round_cls_py acs f a.
 Proof.
-  unfold round_cls_py, round_cls_reg_py. intros H H4.
-  destruct (round_cls acs f (lowered a)) eqn:E.
-  - cbn [with4] in H, H4. destruct (has_zero a); congruence.
-  - rewrite round_cls_reg_open by (rewrite E; discriminate). rewrite E. reflexivity.
+  unfold round_cls_py, round_cls_reg_py. intros H. rewrite round_cls_reg_open by exact H.
+  unfold with4. destruct (round_cls acs f (lowered a)); congruence.
 Qed.
 
 (* ================================================================ lowering *)
@@ -64,22 +69,22 @@ Proof.
   destruct Hin as [->|Hin]; [unfold texts_of; rewrite G; reflexivity|exact (IH r' eq_refl Hin)].
 Qed.
 
-(* the texts and types do_ava gives are the lexical forms and the XML Schema types of the values,
-   unless a value is the integer 0 *)
+(* the texts and types do_ava gives are the lexical forms and the XML Schema types of the values
+   (0, 0.0 and False included, since 33a3a3a1) *)
 Lemma do_ava_list_exact l vs :
-  existsb is_zero l = false -> lexicals l = Some vs ->
+  lexicals l = Some vs ->
   do_ava_list l = DOk (combine (map xs_type l) vs).
 Proof.
-  revert vs. induction l as [|v r IH]; intros vs Hz Hl.
+  revert vs. induction l as [|v r IH]; intros vs Hl.
   - cbn in Hl. inversion Hl. reflexivity.
-  - cbn [existsb] in Hz. apply orb_false_iff in Hz as [Hz1 Hz2].
-    cbn [lexicals] in Hl. destruct (lexical v) as [s|] eqn:Lv; [|discriminate].
+  - cbn [lexicals] in Hl. destruct (lexical v) as [s|] eqn:Lv; [|discriminate].
     destruct (lexicals r) as [ss|] eqn:Lr; [|discriminate]. inversion Hl; subst vs.
-    cbn [do_ava_list map combine]. rewrite (IH ss Hz2 eq_refl).
-    destruct v as [x|b|z|]; cbn [do_ava1 xs_type lexical is_zero] in *.
+    cbn [do_ava_list map combine]. rewrite (IH ss eq_refl).
+    destruct v as [x|b|z|x zero|]; cbn [do_ava1 xs_type lexical] in *.
     + inversion Lv. reflexivity.
     + destruct b; inversion Lv; reflexivity.
-    + rewrite Hz1. inversion Lv. reflexivity.
+    + inversion Lv. reflexivity.
+    + inversion Lv. reflexivity.
     + discriminate.
 Qed.
 
@@ -104,12 +109,12 @@ Proof.
 Qed.
 
 Lemma do_ava_exact v vs :
-  existsb is_zero (given v) = false -> given_texts v = Some vs ->
+  given_texts v = Some vs ->
   do_ava v = DOk (combine (map xs_type (given v)) vs).
 Proof.
-  destruct v as [l|x]; unfold given_texts; cbn [given do_ava]; intros Hz Hl.
+  destruct v as [l|x]; unfold given_texts; cbn [given do_ava]; intros Hl.
   - apply do_ava_list_exact; assumption.
-  - pose proof (do_ava_list_exact [x] vs Hz Hl) as H. cbn [do_ava_list] in H.
+  - pose proof (do_ava_list_exact [x] vs Hl) as H. cbn [do_ava_list] in H.
     destruct (do_ava1 x) as [[tv|]|e]; try discriminate.
     exact H.
 Qed.
@@ -118,7 +123,7 @@ Lemma all_str_lexicals l : forallb is_pstr l = true -> exists vs, all_str l = So
 Proof.
   induction l as [|v r IH]; cbn [forallb]; intros H; [exists []; split; reflexivity|].
   apply andb_true_iff in H as [H1 H2]. destruct (IH H2) as (vs & A & L).
-  destruct v as [s| | |]; try discriminate. exists (s :: vs). cbn [all_str lexicals lexical]. rewrite A, L. split; reflexivity.
+  destruct v as [s| | | |]; try discriminate. exists (s :: vs). cbn [all_str lexicals lexical]. rewrite A, L. split; reflexivity.
 Qed.
 
 Lemma eptid_value_exact v vs :
@@ -126,7 +131,7 @@ Lemma eptid_value_exact v vs :
 Proof.
   unfold given_texts. destruct v as [l|x]; cbn [given eptid_value]; intros Hp Hl.
   - destruct (all_str_lexicals l Hp) as (ws & A & L). rewrite A. congruence.
-  - destruct x as [s| | |]; try discriminate. cbn in Hl. inversion Hl. reflexivity.
+  - destruct x as [s| | | |]; try discriminate. cbn in Hl. inversion Hl. reflexivity.
 Qed.
 
 (* what the spec calls "sent under the OID" is the test in to_() *)
@@ -137,14 +142,14 @@ Proof.
 Qed.
 
 Lemma to_one_py_exact m e vs :
-  existsb is_zero (given (snd e)) = false -> given_texts (snd e) = Some vs ->
+  given_texts (snd e) = Some vs ->
   (sends_eptid m (fst e) = true -> forallb is_pstr (given (snd e)) = true) ->
   to_one_py m e = DOk (to_one m (fst e, texts_of (snd e)), tys_of m e).
 Proof.
-  intros Hz Hl Hs. unfold to_one_py, tys_of, texts_of. rewrite Hl.
+  intros Hl Hs. unfold to_one_py, tys_of, texts_of. rewrite Hl.
   destruct (sends_eptid m (fst e)) eqn:E.
   - rewrite (eptid_value_exact _ _ (Hs eq_refl) Hl). reflexivity.
-  - rewrite (do_ava_exact _ _ Hz Hl).
+  - rewrite (do_ava_exact _ _ Hl).
     pose proof (lexicals_length _ _ Hl) as Hlen.
     rewrite combine_snd, combine_fst by (rewrite ?map_length; exact Hlen). reflexivity.
 Qed.
@@ -156,16 +161,15 @@ Lemma sent_by_wire m a : map fst (sent_by m a) = conv_to m (lower_ava a).
 Proof. unfold sent_by, conv_to, lower_ava. rewrite !map_map. reflexivity. Qed.
 
 Lemma conv_to_py_exact m a a' :
-  has_zero a = false -> givens a = Some a' ->
+  givens a = Some a' ->
   (forall e, In e a -> sends_eptid m (fst e) = true -> forallb is_pstr (given (snd e)) = true) ->
   conv_to_py m a = DOk (sent_by m a).
 Proof.
-  unfold conv_to_py, sent_by. revert a'. induction a as [|e r IH]; intros a' Hz Hg Hs; [reflexivity|].
-  unfold has_zero in Hz. cbn [existsb] in Hz. apply orb_false_iff in Hz as [Hz1 Hz2].
+  unfold conv_to_py, sent_by. revert a'. induction a as [|e r IH]; intros a' Hg Hs; [reflexivity|].
   cbn [givens] in Hg. destruct (given_texts (snd e)) as [vs|] eqn:G; [|discriminate].
   destruct (givens r) as [r'|] eqn:R; [|discriminate].
-  cbn [map dseq]. rewrite (to_one_py_exact m e vs Hz1 G (Hs e (or_introl eq_refl))).
-  rewrite (IH r' Hz2 eq_refl) by (intros x Hx; apply Hs; right; exact Hx). reflexivity.
+  cbn [map dseq]. rewrite (to_one_py_exact m e vs G (Hs e (or_introl eq_refl))).
+  rewrite (IH r' eq_refl) by (intros x Hx; apply Hs; right; exact Hx). reflexivity.
 Qed.
 
 Lemma py_scope_sender acs f a s :
@@ -179,21 +183,21 @@ Qed.
 
 (* the typed functions are the string-level ones on the lexical forms *)
 Theorem from_local_py_lowered acs f a a' :
-  has_zero a = false -> py_scope_b acs f a = true -> givens a = Some a' ->
+  py_scope_b acs f a = true -> givens a = Some a' ->
   from_local_py acs a f = match sender acs f with Some s => SOk (sent_by s a) | None => SNone end /\
   sres_wire (from_local_py acs a f) = from_local acs a' f.
 Proof.
-  intros Hz Hsc Hg. unfold from_local_py, from_local. destruct (sender acs f) as [s|] eqn:S; [|split; reflexivity].
+  intros Hsc Hg. unfold from_local_py, from_local. destruct (sender acs f) as [s|] eqn:S; [|split; reflexivity].
   destruct (sender_some _ _ _ S) as [Hin Hf].
-  rewrite (conv_to_py_exact s a a' Hz Hg (py_scope_sender _ _ _ _ Hsc Hin Hf)).
+  rewrite (conv_to_py_exact s a a' Hg (py_scope_sender _ _ _ _ Hsc Hin Hf)).
   split; [reflexivity|]. cbn [sres_wire]. rewrite sent_by_wire, (givens_lower _ _ Hg). reflexivity.
 Qed.
 
 Theorem roundtrip_py_lowered acs f a a' allow xml :
-  has_zero a = false -> py_scope_b acs f a = true -> givens a = Some a' ->
+  py_scope_b acs f a = true -> givens a = Some a' ->
   rres_opt (roundtrip_py acs a f allow xml) = roundtrip acs a' f allow xml.
 Proof.
-  intros Hz Hsc Hg. destruct (from_local_py_lowered acs f a a' Hz Hsc Hg) as [H1 H2].
+  intros Hsc Hg. destruct (from_local_py_lowered acs f a a' Hsc Hg) as [H1 H2].
   unfold roundtrip_py, roundtrip. rewrite <- H2, H1.
   destruct (sender acs f) as [s|]; reflexivity.
 Qed.
@@ -205,8 +209,8 @@ Proof. unfold lowered. intros ->. reflexivity. Qed.
 Theorem send_py_correct acs f a :
   send_cls_py acs f a = 0 -> spec_send_py acs f a (from_local_py acs a f).
 Proof.
-  intros C Hsc a' Hg. apply with4_zero in C as [C Hz]. rewrite (lowered_givens _ _ Hg) in C.
-  destruct (from_local_py_lowered acs f a a' Hz Hsc Hg) as [H1 H2]. split.
+  intros C Hsc a' Hg. unfold send_cls_py in C. rewrite (lowered_givens _ _ Hg) in C.
+  destruct (from_local_py_lowered acs f a a' Hsc Hg) as [H1 H2]. split.
   - rewrite H2. apply send_correct. exact C.
   - intros m ws Hm Hf Hout e n He Hw Hn.
     destruct (sender_exists _ _ _ Hm Hf) as [s Hs]. destruct (sender_some _ _ _ Hs) as [Hsin Hsf].
@@ -229,19 +233,19 @@ Theorem round_py_correct acs f a allow xml :
   (forall m, In m acs -> nf m = f -> map_symmetric m) ->
   spec_round_py acs f a (roundtrip_py acs a f allow xml).
 Proof.
-  intros C Sym Hsc a' Hg. apply with4_zero in C as [C Hz]. rewrite (lowered_givens _ _ Hg) in C.
-  rewrite (roundtrip_py_lowered acs f a a' allow xml Hz Hsc Hg). apply round_correct; assumption.
+  intros C Sym Hsc a' Hg. unfold round_cls_py in C. rewrite (lowered_givens _ _ Hg) in C.
+  rewrite (roundtrip_py_lowered acs f a a' allow xml Hsc Hg). apply round_correct; assumption.
 Qed.
 
-(* booleans and integers other than 0, alone or in a list, next to strings: one symmetric map sends
+(* booleans, integers and floats (False, 0 and 0.0 included), alone or in a list, next to strings: one symmetric map sends
    and receives them as their lexical forms, nothing lost (the canonical result of the string level) *)
 Theorem send_receive_py m a a' allow xml :
-  has_zero a = false -> py_scope_b [m] (nf m) a = true -> givens a = Some a' ->
+  py_scope_b [m] (nf m) a = true -> givens a = Some a' ->
   map_symmetric m -> covered m a' ->
   roundtrip_py [m] a (nf m) allow xml = ROk (canonical m m a').
 Proof.
-  intros Hz Hsc Hg Sym Cov.
-  pose proof (roundtrip_py_lowered [m] (nf m) a a' allow xml Hz Hsc Hg) as H.
+  intros Hsc Hg Sym Cov.
+  pose proof (roundtrip_py_lowered [m] (nf m) a a' allow xml Hsc Hg) as H.
   rewrite (send_receive m a' allow xml Sym Cov) in H.
   destruct (roundtrip_py [m] a (nf m) allow xml); cbn [rres_opt] in H; congruence.
 Qed.
@@ -290,26 +294,58 @@ Proof.
   - split; [discriminate|reflexivity].
 Qed.
 
-(* ================================================================ finding C17-F4: at full strength
-   the typed clause is false — one map, one attribute, the integer 0 *)
+(* ================================================================ finding C17-F4, repaired by 33a3a3a1:
+   the code as it was (from_local_py_v0 / roundtrip_py_v0) violated the typed clauses — one map, one
+   attribute, the integer 0 (in a list, alone) or the float 0.0 ... *)
 Definition ZERO_MAP : conv := {| nf := NAME_FORMAT_URI; to_ := [("logincount", "urn:x:loginCount")];
                                  fro := [("urn:x:logincount", "loginCount")] |}.
+Definition ZERO_LIST : pava := [("loginCount", VList [PBool false; PInt 0])].
+Definition ZERO_ONE : pava := [("loginCount", VOne (PInt 0))].
+Definition ZERO_FLOAT : pava := [("loginCount", VList [PFloat "0.0" true; PFloat "1.5" false])].
 
-Theorem zero_int_refuted_holds :
-  (exists a, ~ spec_send_py [ZERO_MAP] NAME_FORMAT_URI a (from_local_py [ZERO_MAP] a NAME_FORMAT_URI)) /\
-  (exists a, ~ spec_round_py [ZERO_MAP] NAME_FORMAT_URI a (roundtrip_py [ZERO_MAP] a NAME_FORMAT_URI false true)).
+Theorem zero_v0_refuted_holds :
+  (exists a, ~ spec_send_py [ZERO_MAP] NAME_FORMAT_URI a (from_local_py_v0 [ZERO_MAP] a NAME_FORMAT_URI)) /\
+  (exists a, ~ spec_round_py [ZERO_MAP] NAME_FORMAT_URI a (roundtrip_py_v0 [ZERO_MAP] a NAME_FORMAT_URI false true)) /\
+  (exists a, ~ spec_send_py [ZERO_MAP] NAME_FORMAT_URI a (from_local_py_v0 [ZERO_MAP] a NAME_FORMAT_URI) /\
+             has_zero a = true /\ forall e, In e a -> existsb (fun v => match v with PInt _ => true | _ => false end) (given (snd e)) = false).
 Proof.
-  split.
-  - exists [("loginCount", VList [PInt 0])]. intros H. apply spec_send_py_b_iff in H. vm_compute in H. discriminate.
-  - exists [("loginCount", VOne (PInt 0))]. intros H. apply spec_round_py_b_iff in H. vm_compute in H. discriminate.
+  split; [|split].
+  - exists ZERO_LIST. intros H. apply spec_send_py_b_iff in H. vm_compute in H. discriminate.
+  - exists ZERO_ONE. intros H. apply spec_round_py_b_iff in H. vm_compute in H. discriminate.
+  - exists ZERO_FLOAT. split; [|split].
+    + intros H. apply spec_send_py_b_iff in H. vm_compute in H. discriminate.
+    + reflexivity.
+    + intros e [<-|[]]. reflexivity.
 Qed.
 
-(* non-vacuity: [True; False; "x"; 7; -3] and False alone are sent typed and come back as lexical forms *)
+(* ... and the same inputs are handled correctly now *)
+Theorem zero_now_holds :
+  from_local_py_v0 [ZERO_MAP] ZERO_LIST NAME_FORMAT_URI = SExc "OtherError" /\
+  from_local_py [ZERO_MAP] ZERO_LIST NAME_FORMAT_URI
+    = SOk [({| wname := Some "urn:x:loginCount"; wnf := Some NAME_FORMAT_URI; wfriendly := Some "loginCount";
+               wvals := [WText "false"; WText "0"] |}, ["xs:boolean"; "xs:integer"])] /\
+  spec_send_py [ZERO_MAP] NAME_FORMAT_URI ZERO_LIST (from_local_py [ZERO_MAP] ZERO_LIST NAME_FORMAT_URI) /\
+  roundtrip_py_v0 [ZERO_MAP] ZERO_ONE NAME_FORMAT_URI false true = RExc "OtherError" /\
+  roundtrip_py [ZERO_MAP] ZERO_ONE NAME_FORMAT_URI false true = ROk [("loginCount", [LStr "0"])] /\
+  spec_round_py [ZERO_MAP] NAME_FORMAT_URI ZERO_ONE (roundtrip_py [ZERO_MAP] ZERO_ONE NAME_FORMAT_URI false true) /\
+  roundtrip_py [ZERO_MAP] ZERO_FLOAT NAME_FORMAT_URI false true = ROk [("loginCount", [LStr "0.0"; LStr "1.5"])].
+Proof.
+  split; [vm_compute; reflexivity|]. split; [vm_compute; reflexivity|].
+  split; [apply spec_send_py_b_iff; vm_compute; reflexivity|].
+  split; [vm_compute; reflexivity|]. split; [vm_compute; reflexivity|].
+  split; [apply spec_round_py_b_iff; vm_compute; reflexivity|]. vm_compute. reflexivity.
+Qed.
+
+(* the old and the new code differ only where class 4 says *)
+Lemma do_ava1_v0_same v : is_zero v = false -> do_ava1_v0 v = do_ava1 v.
+Proof. destruct v as [x|b|z|x zero|]; cbn [is_zero do_ava1_v0]; intros H; rewrite ?H; reflexivity. Qed.
+
+(* non-vacuity: [True; False; "x"; 7; -3; 2.5] and False alone are sent typed and come back as lexical forms *)
 Example typed_example :
-  from_local_py [ZERO_MAP] [("loginCount", VList [PBool true; PBool false; PStr "x"; PInt 7; PInt (-3)])] NAME_FORMAT_URI
+  from_local_py [ZERO_MAP] [("loginCount", VList [PBool true; PBool false; PStr "x"; PInt 7; PInt (-3); PFloat "2.5" false])] NAME_FORMAT_URI
   = SOk [({| wname := Some "urn:x:loginCount"; wnf := Some NAME_FORMAT_URI; wfriendly := Some "loginCount";
-             wvals := [WText "true"; WText "false"; WText "x"; WText "7"; WText "-3"] |},
-          ["xs:boolean"; "xs:boolean"; "xs:string"; "xs:integer"; "xs:integer"])] /\
+             wvals := [WText "true"; WText "false"; WText "x"; WText "7"; WText "-3"; WText "2.5"] |},
+          ["xs:boolean"; "xs:boolean"; "xs:string"; "xs:integer"; "xs:integer"; "xs:float"])] /\
   roundtrip_py [ZERO_MAP] [("LOGINCOUNT", VOne (PBool false))] NAME_FORMAT_URI false true
   = ROk [("loginCount", [LStr "false"])] /\
   spec_send_py_b [ZERO_MAP] NAME_FORMAT_URI [("loginCount", VList [PBool true; PBool false])]
